@@ -46,7 +46,8 @@ Topo == {[cpu |-> c, pkg |-> PkgOf[c], die |-> 0, node |-> PkgOf[c], core |-> c,
 Snapshot ==
     [allowed |-> SetToSeq(Cpus), reserved |-> <<>>, free |-> SetToSeq(free), pincpu |-> TRUE, pinmemory |-> TRUE, idleclass |-> "",
      defs |-> SetToSeq({[name |-> d.name, mincpus |-> d.mincpus, maxcpus |-> d.maxcpus, minballoons |-> d.minballoons,
-                         maxballoons |-> d.maxballoons, shareidle |-> d.shareidle, hideht |-> FALSE, pinmemory |-> TRUE] : d \in Defs}),
+                         maxballoons |-> d.maxballoons, shareidle |-> d.shareidle, hideht |-> FALSE, pinmemory |-> TRUE,
+                         cpuclass |-> d.name] : d \in Defs}),
      balloons |-> SetToSeq({[name |-> <<b.def, b.inst>>, def |-> b.def, inst |-> b.inst, cpus |-> SetToSeq(b.cpus),
                              shared |-> SetToSeq(SharedOf(b, free)), ctrs |-> SetToSeq(b.ctrs), reqmilli |-> ReqMilli(b)] : b \in blns})]
 
